@@ -77,6 +77,16 @@ CLAIMED = {
                 'among the validated arguments nor settable by the client. Tied by dispatching through real JsonSchemaValidator / PydanticValidator-validated methods (schema fragments, annotations incl. Optional / List / Dict / model / enum, '
                 'conforming / coercible / non-conforming values, positional / named, exclusion predicates, coercion on / off); the verdicts come from jsonschema / pydantic called directly on what CPython\'s binder produces.',
                 note='Kernel + standard axioms; "conforming" is what jsonschema / pydantic say — their semantics are oracles, not theorems; D6 applies to variadic signatures.'),
+    'C16': dict(ref='§4 C16', text='Lean theorems over the generators\' plumbing with abstract extractor results and an explicit annotation heap: C16_pure_heap, C16_deterministic, '
+                'C16_complete (exactly one entry per (endpoint, method) under join_path(path, endpoint)#name, each a function of its own method alone: no cross-method leak), C16_closed (every $ref resolves if each extractor returns the components it references), '
+                'OpenRPC complete + pure; the pinned in-place extension is refuted (C16_shared_list_counterexample). Tied by generating real OpenAPI 3.0 / 3.1 and OpenRPC documents for random method sets x annotation combinations '
+                '(errors lists shared between methods, tags, examples, prefixes, servers, security) x extractor stacks x endpoint prefixes x 1..3 generations, abstracted to path keys / error codes / tags / $ref targets / component keys; '
+                'per-method model inputs come from generating each method alone. Oracle: JSON-encodability, the official meta-schemas shipped with the repo, dangling-$ref scan, repetition, before / after snapshots, content digests per entry.',
+                note='Kernel + standard axioms; meta-schema validity and the content of pydantic-generated schemas are checked by the oracle only; OAS 3.0 dialect, untyped docstrings and same-named methods on different endpoints (D22) are recorded findings.'),
+    'C17': dict(ref='§4 C17', text='Lean theorems: C17_names_agree (documented names = names the binder keeps, required = those without default), C17_accept_iff (a named params object with key set K binds iff required ⊆ K ⊆ documented, '
+                'from the closed form of Signature.bind), C17_excluded_absent; C17_view_counterexample refutes the statement for class-based views (D16, recorded). Tied by reading the parameter schema out of real OpenAPI and OpenRPC documents '
+                'for all signatures of <=4 positional-or-keyword / keyword-only parameters x defaults x context / exclusion predicate x function / view and dispatching every params object over subsets of (documented + undocumented + context names).',
+                note='Kernel + standard axioms; the step from field definitions to properties / required is pydantic\'s (oracle input).'),
     'C18': dict(ref='§4 C18', text='Lean theorems over the three _rpc_handle functions: every documented media type passes the gate (tied to REQUEST_CONTENT_TYPES by the constants translator), every other one is answered 415 with an empty log, '
                 'an accepted request is answered with exactly the dispatcher\'s document, the JSON content type and status_by_error(codes) (200 + empty body for nothing), never 500 with well-behaved middlewares (via C01), '
                 'undecodable bodies 400, the integrations coincide. Tied through the aiohttp TestClient, flask test_client and werkzeug Client over media types (documented, charset / case variants, near misses, missing) '
